@@ -432,6 +432,382 @@ def layer_kind(cls):
     return "root"
 
 
+# ------------------------------------------------------------------------------------------------------
+# dynamic observation: what a layer class DOES with the transforms it holds (robust against refactorings)
+# ------------------------------------------------------------------------------------------------------
+def _tiny_ds(kind="tensor", collators=None):
+    import torch
+    from kappadata.datasets.kd_dataset import KDDataset
+
+    class _ProbeBase(KDDataset):
+        def __init__(self):
+            super().__init__(collators=collators)
+            g = torch.Generator().manual_seed(5)
+            self.x = torch.rand(4, 3, 16, 16, generator=g)
+            self.inits = 0
+
+        def getitem_x(self, idx, ctx=None):
+            x = self.x[idx].clone()
+            if kind == "pil":
+                from torchvision.transforms.functional import to_pil_image
+                return to_pil_image(x)
+            return x
+
+        def getitem_y(self, idx, ctx=None):
+            return self.x[idx].clone()
+
+        def getitem_source(self, idx, ctx=None):
+            return self.x[idx].clone()
+
+        def getitem_target(self, idx, ctx=None):
+            return self.x[idx].clone()
+
+        def getitem_semseg(self, idx, ctx=None):
+            return torch.zeros(16, 16, dtype=torch.long)
+
+        def getitem_class(self, idx, ctx=None):
+            return int(idx) % 3
+
+        def getshape_class(self):
+            return 3,
+
+        def __len__(self):
+            return 4
+
+        def worker_init_fn(self, rank, **kwargs):
+            self.inits += 1
+            super().worker_init_fn(rank, **kwargs)
+
+    return _ProbeBase()
+
+
+def _probe_transform():
+    """a stochastic KD transform that counts its calls and returns its input; nested one level so that a guard which only
+    admits KDStochastic/KDCompose instances is visible (the outer object is a PatchwiseTransform-like plain KDTransform)"""
+    from kappadata.transforms.base.kd_transform import KDTransform
+    from kappadata.transforms.base.kd_stochastic_transform import KDStochasticTransform
+
+    class _Leaf(KDStochasticTransform):
+        calls = 0
+
+        def __call__(self, x, ctx=None):
+            type(self).calls += 1
+            self.calls_inst = getattr(self, "calls_inst", 0) + 1
+            return x
+
+    class _Outer(KDTransform):
+        """plain KDTransform (neither stochastic nor compose) that forwards to a stochastic member"""
+
+        def __init__(self):
+            super().__init__()
+            self.inner = _Leaf()
+
+        def set_rng(self, rng):
+            self.inner.set_rng(rng)
+            return self
+
+        def __call__(self, x, ctx=None):
+            return self.inner(x, ctx=ctx)
+
+    return [("leaf", _Leaf), ("plain-outer", _Outer)]
+
+
+def _leaf_of(t):
+    return getattr(t, "inner", t)
+
+
+def _construct_layer(cls, seed, kind="tensor", only_kind=False):
+    """tries the constructor shapes used by the layer classes of the package"""
+    from kappadata.transforms.base.kd_identity_transform import KDIdentityTransform
+    ident = KDIdentityTransform
+    from kappadata.datasets.kd_dataset import KDDataset
+    tries = [
+        lambda ds: cls(ds, transform=ident(), seed=seed),
+        lambda ds: cls(dataset=ds, configs=[(1, ident())], seed=seed),
+        lambda ds: cls(dataset=ds, transforms=[ident()], seed=seed),
+        lambda ds: cls(dataset=ds, mixup_p=1.0, mixup_alpha=1.0, seed=seed),
+        lambda ds: cls(dataset=ds, global_size=16, local_size=8, num_local_crops=1, seed=seed),
+        lambda ds: cls(ds, seed=seed),
+        lambda ds: cls(dataset=ds, seed=seed),
+    ]
+    if seed is None:
+        tries += [
+            lambda ds: cls(ds, transform=ident()),
+            lambda ds: cls(dataset=ds, configs=[(1, ident())]),
+            lambda ds: cls(dataset=ds, transforms=[ident()]),
+            lambda ds: cls(ds),
+            lambda ds: cls(dataset=ds),
+            lambda ds: cls(ds, indices=[0, 1]),
+            lambda ds: cls(ds, [0, 1]),
+            lambda ds: cls([ds, _tiny_ds(kind)]),
+            lambda ds: cls(ds, mode="x"),
+            lambda ds: cls(dataset=ds, mode="x"),
+        ]
+    for k in ((kind,) if only_kind else (kind, "pil" if kind == "tensor" else "tensor")):
+        for t in tries:
+            try:
+                inst = t(_tiny_ds(k))
+                if type(inst) is cls:
+                    return inst, k
+            except Exception:
+                continue
+    return None, None
+
+
+def _inject(inst, slot, slot_kind, probe):
+    from kappadata.wrappers.sample_wrappers.kd_multi_view_wrapper import KDMultiViewConfig
+    if slot_kind == "cfg":
+        setattr(inst, slot, [KDMultiViewConfig(n_views=1, transform=probe)])
+    elif slot_kind == "list":
+        setattr(inst, slot, [probe])
+    else:
+        setattr(inst, slot, probe)
+
+
+def dynamic_seed_facts(cls, slots, static_site):
+    """observes one seeded per-sample request per accessor: which generators are created (seed + idx?), which slots' members are
+    called, which receive the fresh generator.  None when the class cannot be built / has no injectable slot shape."""
+    import numpy as np
+    from unittest import mock
+    seed, idx = 37, 2
+    inst, kind = _construct_layer(cls, seed)
+    if inst is None:
+        return None
+    accessors = [n for n in dir(cls) if n.startswith("getitem_") and callable(getattr(cls, n, None))
+                 and any(n in vars(c) for c in cls.__mro__ if c.__module__.startswith("kappadata"))]
+    created = []
+    orig = np.random.default_rng
+
+    def rec(seed=None, *a, **kw):
+        g = orig(seed, *a, **kw)
+        created.append((g, seed))
+        return g
+
+    applied, seeded, plus_idx, ran = set(), set(), True, False
+    any_created = False
+    inj_slots = [(s, k["kind"]) for s, k in slots.items() if k["kind"] in ("single", "list", "cfg") and "cls" not in k]
+    fixed_slots = [s for s, k in slots.items() if not (k["kind"] in ("single", "list", "cfg") and "cls" not in k)]
+    for pname, pcls in _probe_transform():
+        for slot, sk in (inj_slots or [(None, None)]):
+            inst, kind = _construct_layer(cls, seed)
+            if inst is None:
+                return None
+            probe = pcls() if slot is not None else None
+            if slot is not None:
+                _inject(inst, slot, sk, probe)
+            for acc in accessors:
+                del created[:]
+                before = getattr(_leaf_of(probe), "calls_inst", 0) if probe is not None else 0
+                try:
+                    with mock.patch.object(np.random, "default_rng", rec):
+                        getattr(inst, acc)(idx)
+                except Exception:
+                    continue
+                ran = True
+                called = probe is not None and getattr(_leaf_of(probe), "calls_inst", 0) > before
+                if any(sd != seed + idx for _, sd in created):
+                    plus_idx = False            # a generator that is not default_rng(seed + idx)
+                if not created and (called or probe is None and acc in ("getitem_x", "getitem_xclass")):
+                    plus_idx = False            # the accessor applied a transform / drew without building a per-sample generator
+                if created:
+                    any_created = True
+                if probe is not None:
+                    got = _leaf_of(probe).rng
+                    fresh = any(got is g for g, _ in created)
+                    if called:
+                        applied.add(slot)
+                        if fresh:
+                            seeded.add((slot, pname))
+    # slots built by the constructor itself (fixed pipelines, alias lists): after one request every cell below every member must be
+    # a generator created during that request; which members are called is observed through their classes' __call__
+    fixed_seeded, fixed_applied = set(), set()
+    if fixed_slots:
+        for data_kind in ("tensor", "pil"):
+            inst, kind = _construct_layer(cls, seed, data_kind, only_kind=True)
+            if inst is None:
+                continue
+            members = {s_: _members(inst, s_, slots[s_]["kind"]) for s_ in fixed_slots}
+            called = set()
+            patches = []
+            for tp in {type(m) for ms in members.values() for m in ms if callable(m)}:
+                orig_call = tp.__call__
+
+                def wrapper(self_, *a, __orig=orig_call, **kw):
+                    called.add(id(self_))
+                    return __orig(self_, *a, **kw)
+                patches.append(mock.patch.object(tp, "__call__", wrapper))
+            for p_ in patches:
+                p_.start()
+            worked = False
+            try:
+                for acc in accessors:
+                    del created[:]
+                    try:
+                        with mock.patch.object(np.random, "default_rng", rec):
+                            getattr(inst, acc)(idx)
+                    except Exception:
+                        continue
+                    worked = True
+                    if any(sd != seed + idx for _, sd in created) or not created:
+                        plus_idx = False
+                    for s_ in fixed_slots:
+                        cells = [c for m in members[s_] for c in _sub_cells(m)]
+                        if cells and all(any(c is g for g, _ in created) for c in cells):
+                            fixed_seeded.add(s_)
+                        if any(id(m) in called for m in members[s_]):
+                            fixed_applied.add(s_)
+            finally:
+                for p_ in patches:
+                    p_.stop()
+            if worked:
+                ran = True
+                any_created = True if created else any_created
+                break
+    if not ran:
+        return None
+    plus_idx = plus_idx and any_created
+    seeded_slots = {s for s, _ in inj_slots if all((s, pn) in seeded for pn, _ in _probe_transform())}
+    not_applied = {s for s, _ in inj_slots if s not in applied}
+    return {"seedPlusIdx": plus_idx, "applied": sorted(applied), "seeded": sorted(seeded_slots | not_applied), "fixed_slots": fixed_slots,
+            "fixed_seeded": sorted(fixed_seeded), "fixed_applied": sorted(fixed_applied)}
+
+
+def _sub_cells(t):
+    """generator cells below a transform (object graph walk)"""
+    import numpy as np
+    from kappadata.transforms.base.kd_transform import KDTransform
+    from kappadata.collators.base.kd_collator_base import KDCollatorBase
+    out, seen = [], set()
+
+    def go(o):
+        if not isinstance(o, (KDTransform, KDCollatorBase)) or id(o) in seen:
+            return
+        seen.add(id(o))
+        r = vars(o).get("rng")
+        if isinstance(r, np.random.Generator):
+            out.append(r)
+        for v in vars(o).values():
+            if isinstance(v, (list, tuple)):
+                for e in v:
+                    go(e)
+            else:
+                go(v)
+    go(t)
+    return out
+
+
+def _members(inst, slot, slot_kind):
+    v = vars(inst).get(slot)
+    if v is None:
+        return []
+    if slot_kind == "cfg":
+        return [c.transform for c in v]
+    if isinstance(v, (list, tuple)):
+        return list(v)
+    return [v]
+
+
+def dynamic_init_facts(cls, slots, layer_kind_):
+    """observes worker_init_fn on an instance: which slots' members are re-seeded from the global state, whether the inner
+    dataset's / every part's hook is called"""
+    import numpy as np
+    from unittest import mock
+    import kappadata.utils.random as kr
+    inst, kind = _construct_layer(cls, None)
+    if inst is None:
+        return None
+    made = []
+    orig = kr.get_rng_from_global
+
+    def rec():
+        g = orig()
+        made.append(g)
+        return g
+    patches = []
+    for name, mod in list(sys.modules.items()):
+        if name.startswith("kappadata") and mod is not None and getattr(mod, "get_rng_from_global", None) is orig:
+            patches.append(mock.patch.object(mod, "get_rng_from_global", rec))
+    inj_slots = [(s, k["kind"]) for s, k in slots.items() if k["kind"] in ("single", "list", "cfg") and "cls" not in k]
+    init_slots, forwards_inner = set(), None
+    for p_ in patches:
+        p_.start()
+    try:
+        probes = {}
+        for slot, sk in inj_slots:
+            pr = _probe_transform()[1][1]()
+            probes[slot] = pr
+            _inject(inst, slot, sk, pr)
+        inner = vars(inst).get("dataset")
+        parts = vars(inst).get("datasets")
+        before = getattr(inner, "inits", None)
+        before_parts = [getattr(p, "inits", None) for p in parts] if isinstance(parts, list) else None
+        try:
+            np.random.seed(3)
+            inst.worker_init_fn(0, batch_size=2, updates=10)
+        except Exception:
+            return None
+        for slot, pr in probes.items():
+            if any(_leaf_of(pr).rng is g for g in made):
+                init_slots.add(slot)
+        # slots built by the constructor itself (fixed pipelines, alias lists): every cell below every member re-seeded?
+        for s_, k in slots.items():
+            if s_ in probes:
+                continue
+            mem = _members(inst, s_, k["kind"])
+            cells = [c for m in mem for c in _sub_cells(m)]
+            if all(any(c is g for g in made) for c in cells):
+                init_slots.add(s_)
+        if before is not None:
+            forwards_inner = getattr(inner, "inits", 0) > before
+        if before_parts is not None and all(b is not None for b in before_parts):
+            forwards_inner = all(getattr(p, "inits", 0) > b for p, b in zip(parts, before_parts))
+    finally:
+        for p_ in patches:
+            p_.stop()
+    return {"initSlots": sorted(init_slots), "forwardsInner": forwards_inner, "injected": [s for s, _ in inj_slots]}
+
+
+def dynamic_root_reseeds(cls):
+    """root datasets: registered collators get a generator derived from the global state in worker_init_fn (observed; the instance is
+    built without running __init__ when the constructor needs files)"""
+    import numpy as np
+    from unittest import mock
+    import kappadata.utils.random as kr
+    import kappadata.collators as C
+    try:
+        col = C.KDMixCollator(mixup_alpha=0.8, mixup_p=1.0)
+        inst = cls.__new__(cls)
+        inst._collators = [col]
+        inst.transform = None
+        inst.dataset = None
+        made = []
+        orig = kr.get_rng_from_global
+
+        def rec():
+            g = orig()
+            made.append(g)
+            return g
+        patches = [mock.patch.object(mod, "get_rng_from_global", rec) for n_, mod in list(sys.modules.items())
+                   if n_.startswith("kappadata") and mod is not None and getattr(mod, "get_rng_from_global", None) is orig]
+        for p_ in patches:
+            p_.start()
+        try:
+            np.random.seed(4)
+            inst.worker_init_fn(0, batch_size=2, updates=10)
+        finally:
+            for p_ in patches:
+                p_.stop()
+        return any(col.rng is g for g in made)
+    except Exception:
+        return None
+
+
+def init_closure(cls):
+    """function objects of worker_init_fn and everything it calls on self (incl. the _worker_init_fn hook)"""
+    from .translate_rngflow import resolved_closure
+    return resolved_closure(cls, "worker_init_fn")
+
+
 def build():
     classes, errors = collect()
     rows = []
@@ -451,17 +827,55 @@ def build():
             for s, k in slots.items():
                 if k["kind"] == "alias" and s in seeded_cov:
                     seeded_cov |= set(k["members"])
-            rows.append({
+            row = {
                 "name": name, "module": cls.__module__, "kind": layer_kind(cls),
                 "slots": real_slots, "slot_kinds": slots,
                 "site": site, "seededCover": sorted(seeded_cov),
-                "wi": wi, "initCover": sorted(covered),
-            })
+                "wi": wi, "initCover": sorted(covered), "source": "static",
+            }
+            # the observed behaviour decides wherever the class can be built and a probe can be injected;
+            # the static reading remains for fixed (constructor-built) slots and unbuildable classes
+            if site is not None:
+                dyn = dynamic_seed_facts(cls, slots, site)
+                if dyn is not None:
+                    inj = set(dyn["applied"]) | set(dyn["seeded"])
+                    site["seedPlusIdx"] = bool(dyn["seedPlusIdx"]) if dyn["seedPlusIdx"] is not None else site["seedPlusIdx"]
+                    site["appliedSlots"] = sorted(set(dyn["fixed_applied"]) | set(dyn["applied"]))
+                    row["seededCover"] = sorted(set(dyn["fixed_seeded"]) | set(dyn["seeded"]))
+                    row["source"] = "dynamic"
+            if row["kind"] == "root":
+                dr = dynamic_root_reseeds(cls)
+                if dr is not None:
+                    wi["reseedsCollators"] = bool(dr)
+            dwi = dynamic_init_facts(cls, slots, row["kind"])
+            row["_init_key"] = (init_closure(cls), tuple(sorted(slots)), row["kind"])
+            if dwi is not None:
+                row["initCover"] = sorted(set(dwi["initSlots"]) & set(real_slots))
+                if dwi["forwardsInner"] is not None and row["kind"] in ("wrapper", "multi"):
+                    wi["forwardsInner"] = bool(dwi["forwardsInner"]) if row["kind"] == "wrapper" else wi["forwardsInner"]
+                    wi["forwardsAll"] = bool(dwi["forwardsInner"]) if row["kind"] == "multi" else wi["forwardsAll"]
+                row["source"] = "dynamic"
+                row["_init_observed"] = True
+            rows.append(row)
         except Exception as e:
             errors.append((name, f"translator: {type(e).__name__}: {e}"))
             rows.append({"name": name, "module": cls.__module__, "kind": "root", "slots": ["?"], "slot_kinds": {}, "site": None,
                          "seededCover": [], "wi": {"callsOwn": False, "forwardsInner": False, "forwardsAll": False,
                                                     "reseedsCollators": False, "initSlots": [], "owner": None}, "initCover": []})
+    # classes that cannot be built here inherit the observation made on a class that runs the very same hook code
+    observed = {}
+    for r in rows:
+        if r.get("_init_observed"):
+            observed.setdefault(r["_init_key"], r)
+    for r in rows:
+        if not r.get("_init_observed") and r.get("_init_key") in observed:
+            o = observed[r["_init_key"]]
+            r["initCover"] = list(o["initCover"])
+            r["wi"]["forwardsInner"] = o["wi"]["forwardsInner"]
+            r["wi"]["forwardsAll"] = o["wi"]["forwardsAll"]
+            r["source"] = "dynamic (observed on a class running the same worker_init_fn code)"
+        r.pop("_init_key", None)
+        r.pop("_init_observed", None)
     return rows, errors
 
 
@@ -510,11 +924,53 @@ def init_problems(rows):
 
 
 def hook_reseeds():
-    """KDTransform.worker_init_fn / KDCollatorBase.worker_init_fn: `self.set_rng(get_rng_from_global())` as an unconditional
-    top-level statement (not under if / for / while / try / with)"""
+    """KDTransform.worker_init_fn / KDCollatorBase.worker_init_fn re-seed from the global state UNCONDITIONALLY: observed on real
+    instances with get_worker_info() reporting no worker / 1 worker / 3 workers (falls back to reading the source when the
+    instances cannot be built)"""
+    import types
+    import numpy as np
+    from unittest import mock
+    import kappadata.utils.random as kr
+    import kappadata.transforms.base.kd_transform as kdt
+    import torch.utils.data as tud
+    out = {}
+    try:
+        import kappadata.transforms as T
+        import kappadata.collators as C
+        subjects = {"KDTransform": lambda: T.KDRandomCrop(size=4), "KDCollatorBase": lambda: C.KDMixCollator(mixup_alpha=0.8, mixup_p=1.0)}
+        orig = kr.get_rng_from_global
+        for name, th in subjects.items():
+            ok = True
+            for nw in (None, 1, 3):
+                made = []
+
+                def rec():
+                    g = orig()
+                    made.append(g)
+                    return g
+                patches = [mock.patch.object(mod, "get_rng_from_global", rec) for n_, mod in list(sys.modules.items())
+                           if n_.startswith("kappadata") and mod is not None and getattr(mod, "get_rng_from_global", None) is orig]
+                info = None if nw is None else types.SimpleNamespace(id=0, num_workers=nw, seed=1, dataset=None)
+                patches += [mock.patch.object(kdt, "get_worker_info", lambda info=info: info),
+                            mock.patch.object(tud, "get_worker_info", lambda info=info: info)]
+                obj = th()
+                for p_ in patches:
+                    p_.start()
+                try:
+                    np.random.seed(9)
+                    obj.worker_init_fn(0)
+                    ok = ok and bool(made) and any(obj.rng is g for g in made)
+                except Exception:
+                    ok = False
+                finally:
+                    for p_ in patches:
+                        p_.stop()
+            out[name] = ok
+        return out
+    except Exception:
+        pass
     from kappadata.transforms.base.kd_transform import KDTransform
     from kappadata.collators.base.kd_collator_base import KDCollatorBase
-    out = {}
     for cls in (KDTransform, KDCollatorBase):
         fn = func_of(src_ast(cls), "worker_init_fn")
         ok = False
